@@ -9,8 +9,8 @@
 import os
 
 PKGS = ['pkg', 'pkgx', 'pk', 'pkg_a', 'foo', 'foobar', 'foo_bar', 'lib']
-MODS = ['mod', 'moda', 'mod_a', 'mod_b', 'm', 'util', 'utils', 'core']
-SUBS = ['sub', 'subx', 'su']
+MODS = ['mod', 'moda', 'mod_a', 'mod_b', 'm', 'util', 'utils', 'core', '_core', '_util']
+SUBS = ['sub', 'subx', 'su', '_impl', '_vendor', '__inner']     # private sub-packages are packages like any other
 TOPMODS = ['helper', 'helperx', 'help', 'tools']
 
 
